@@ -237,11 +237,8 @@ def tasks(tier):
     for i, row in enumerate(NESTS):
         ts.append(Task('props.C15:ob_nest', name='C15/nest.%03d.%s' % (i, row[0]), idx=i, timeout=180))
     ts.append(Task('props.C15:ob_nest_canary', name='C15/nest.canary', timeout=120))
-    try:
-        from props import bounded_C15
-        ts += bounded_C15.tasks(tier)
-    except ImportError:
-        pass
+    from vf.helpers import bounded_tasks
+    ts += bounded_tasks('C15', tier)
     return ts
 
 
